@@ -5,6 +5,7 @@ package main
 import (
 	"context"
 	"errors"
+	"fmt"
 )
 
 // C18 — FirstSuccess under every completion order, outcome vector and concurrency limit.
@@ -19,20 +20,33 @@ func VerifC18FirstSuccess() {
 			conc = -1
 		}
 	}
+	// what a failing job returns: a plain error, or an error that wraps context.DeadlineExceeded /
+	// context.Canceled from the job's OWN inner deadline (the request context stays live), each
+	// together with an arbitrary partial value
+	errKind := verifChoice("errkind", verifParam("errkinds", 3))
 	oks := make([]bool, n)
 	vals := make([]uint64, n)
+	partial := make([]uint64, n)
 	errs := make([]error, n)
 	var fns []JobFunc[uint64]
 	for i := 0; i < n; i++ {
 		i := i
 		oks[i] = verifBool("ok")
 		vals[i] = verifU64("val")
-		errs[i] = errors.New("job failed")
+		partial[i] = verifU64("partial")
+		switch errKind {
+		case 1:
+			errs[i] = fmt.Errorf("epoch lookup: %w", context.DeadlineExceeded)
+		case 2:
+			errs[i] = fmt.Errorf("epoch lookup: %w", context.Canceled)
+		default:
+			errs[i] = errors.New("job failed")
+		}
 		fns = append(fns, func(ctx context.Context) (uint64, error) {
 			if oks[i] {
 				return vals[i], nil
 			}
-			return 0, errs[i]
+			return partial[i], errs[i]
 		})
 	}
 	got, err := FirstSuccess[uint64](context.Background(), conc, fns...)
